@@ -21,6 +21,7 @@
 #include "explore.h"
 #include "refcal.h"
 #include "c03_common.h"
+#include "c07_common.h"
 
 enum { U_MO, U_Q, U_Y, NUNIT };
 static const char *const unit_name[NUNIT] = {"mo", "q", "y"};
@@ -28,14 +29,14 @@ static const int unit_months[NUNIT] = {1, 3, 12};
 enum { O_DAISY, O_DFLT, O_F, NOBS };
 static const char *const obs_name[NOBS] = {"daisy", "dflt", "%F"};
 
-static const int mcal[] = {C_YMD, C_YMCW, C_BIZDA, C_YWD, C_YD};
+static const int mcal[] = {C_YMD, C_YMCW, C_BIZDA, C_YWD, C_YD, C_YMCW0, C_YWD0, C_EPOCH};
 #define NMCAL	((int)(sizeof(mcal) / sizeof(*mcal)))
 
 static int
 cal_has_unit(int c, int u)
 {
 	/* ywd and yd have no notion of months */
-	return u == U_Y || c == C_YMD || c == C_YMCW || c == C_BIZDA;
+	return u == U_Y || c == C_YMD || c == C_YMCW || c == C_BIZDA || c == C_YMCW0 || c == C_EPOCH;
 }
 
 /* counts per unit, simplest first */
@@ -104,6 +105,12 @@ mk_tables(void)
 	}
 }
 
+static const struct spell_s spellings[] = {
+	{"+1Y", "+1y"}, {"-1Y", "-1y"}, {"1Y", "+1y"}, {"1y", "+1y"},
+	{"+1MO", "+1mo"}, {"-1MO", "-1mo"}, {"1MO", "+1mo"}, {"1mo", "+1mo"},
+};
+#define NSPELL	((int)(sizeof(spellings) / sizeof(*spellings)))
+
 /* ---- the model ---- */
 struct tgt_s {
 	int ok;		/* 0: outside the range */
@@ -132,6 +139,8 @@ model_target(int c, const struct rc_day *p, int months)
 {
 	struct tgt_s t = {0, 0, 0};
 
+	/* an epoch prints as a ymd date-time: the ymd rule is the one reading besides "no months here" */
+	c = c == C_EPOCH ? C_YMD : cal_base[c];
 	if (c == C_YMD || c == C_YMCW || c == C_BIZDA) {
 		long ym = (long)p->y * 12 + (p->m - 1) + months;
 		int y = (int)(ym / 12), m = (int)(ym % 12) + 1;
@@ -200,13 +209,14 @@ model_target(int c, const struct rc_day *p, int months)
 	return t;
 }
 
-static uint64_t *c_eval, *c_trans, *c_nontriv, *c_skip_range, *c_clamped, *c_comp, *c_comp_bits, *c_skip_mid;
+static uint64_t *c_eval, *c_trans, *c_nontriv, *c_skip_range, *c_clamped, *c_comp, *c_comp_bits, *c_skip_mid, *c_epoch_noop,
+	*c_mixed, *c_mixed_memo, *c_skip_mixwe;
 
 /* observe value R against target state T; fills ok[]/got[] */
 static void
 observe(int c, struct dt_dt_s r, const struct rc_day *t, int ok[NOBS], char got[NOBS][64])
 {
-	unsigned int daisy = dt_dconv(DT_DAISY, r.d).daisy;
+	unsigned int daisy = obs_daisy(r);
 
 	snprintf(got[O_DAISY], 64, "%u", daisy);
 	ok[O_DAISY] = !dt_unk_p(r) && daisy == (unsigned int)t->rd + 1U;
@@ -249,6 +259,21 @@ do_case(const struct rc_day *p, int c, struct dt_dt_s v, int u, int n, const str
 		++*c_nontriv;
 	}
 	observe(c, r, t, ok, got);
+	if (c == C_EPOCH && !(ok[O_DAISY] && ok[O_DFLT] && ok[O_F])) {
+		/* reading: the property lists the calendars that have months and years, an epoch
+		 * (like the other day numbers) is not among them: leaving the value alone is the
+		 * other acceptable answer; anything else is wrong under both readings */
+		int ok2[NOBS];
+		char got2[NOBS][64];
+		observe(c, r, p, ok2, got2);
+		if (ok2[O_DAISY] && ok2[O_DFLT] && ok2[O_F]) {
+			++*c_epoch_noop;
+			if (replay) {
+				printf("  epoch value left unchanged: accepted (no notion of months)\n");
+			}
+			return 0;
+		}
+	}
 	for (int o = 0; o < NOBS; o++) {
 		char key[128];
 		if (ok[o] && !replay) {
@@ -274,8 +299,8 @@ do_case(const struct rc_day *p, int c, struct dt_dt_s v, int u, int n, const str
 			ex_viol(key, (double)tg.rd, cas, o == O_DAISY ? NULL : cmdp,
 				"%04d-%02d-%02d given as '%s' (%s) %s: %s observation is '%s'; keeping the %s and cropping to the end%s gives %04d-%02d-%02d = '%s'",
 				p->y, p->m, p->d, text, cal_name[c], dtxt, obs_name[o], got[o],
-				c == C_YMD ? "day of the month" : c == C_YMCW ? "weekday and count" : c == C_BIZDA ? "business-day index" :
-				c == C_YWD ? "week and weekday" : "day of the year", tg.clamp ? " (cropped here)" : "",
+				(c == C_YMD || c == C_EPOCH) ? "day of the month" : cal_base[c] == C_YMCW ? "weekday and count" : c == C_BIZDA ? "business-day index" :
+				cal_base[c] == C_YWD ? "week and weekday" : "day of the year", tg.clamp ? " (cropped here)" : "",
 				t->y, t->m, t->d, exp);
 		}
 		if (replay) {
@@ -353,7 +378,238 @@ mk_pairs(void)
 static int
 kind_ok(int c, int k)
 {
-	return k == K_YY || c == C_YMD || c == C_YMCW || c == C_BIZDA;
+	if (c == C_EPOCH) {
+		return 0;	/* see do_case: two readings, compositions not judged */
+	}
+	return k == K_YY || c == C_YMD || c == C_YMCW || c == C_BIZDA || c == C_YMCW0;
+}
+
+/* ---- mixed sequences: a month/year step and a day/week/business-day step in one invocation ----
+ * dadd --help: "duration addition is not commutative! 2000-03-30 +1mo +1d -> 2000-05-01,
+ * 2000-03-30 +1d +1mo -> 2000-04-30": the durations are applied one after the other, each to
+ * the DATE the previous one denotes (C04: that date is the cropped, valid one; C03: n days on
+ * from it on the time line).  Model: crop, then step. */
+enum { S_D, S_W, S_B, S_H, NSUNIT };
+static const char *const sunit_name[NSUNIT] = {"d", "w", "b", "h"};
+static const int first_mo[] = {1, -1, 2, -2, 3, -3, 6, -6, 11, -11, 12, -12, 13, -13};
+static const int first_y[] = {1, -1, 2, -2, 3, -3, 4, -4};
+static const int second_d[] = {1, -1, 2, -2, 7, -7, 28, -28, 31, -31};
+static const int second_w[] = {1, -1, 4, -4, 52, -52};
+static const int second_b[] = {1, -1, 2, -2, 5, -5, 21, -21};
+static const int second_h[] = {9};	/* on a T23:00:00 value: carries into the next day, as an output zone does */
+#define NFIRST	(14 + 8)
+#define NSECOND	(10 + 6 + 8 + 1)
+struct mix_s {
+	struct durs_s fs;	/* first the month/year step */
+	struct durs_s sf;	/* first the day step */
+	int months, sunit, k;
+	char tf[16], ts[16];
+};
+static struct mix_s mixes[NFIRST][NSECOND];
+
+static void
+two_durs(struct durs_s *out, const char *a, const char *b)
+{
+	/* dadd.c main(): one parser state for all duration arguments */
+	struct __strpdtdur_st_s st = {0};
+	const char *args[2] = {a, b};
+
+	for (int i = 0; i < 2; i++) {
+		do {
+			if (dt_io_strpdtdur(&st, args[i]) < 0) {
+				fprintf(stderr, "BROKEN-CHECK: duration text '%s' not accepted\n", args[i]);
+				exit(3);
+			}
+		} while (__strpdtdur_more_p(&st));
+	}
+	if (st.ndurs != 2) {
+		fprintf(stderr, "BROKEN-CHECK: '%s %s' parsed into %zu durations\n", a, b, st.ndurs);
+		exit(3);
+	}
+	out->n = 2;
+	out->d[0] = st.durs[0];
+	out->d[1] = st.durs[1];
+	__strpdtdur_free(&st);
+}
+
+static void
+mk_mixes(void)
+{
+	for (int fi = 0; fi < NFIRST; fi++) {
+		int fy = fi >= 14;
+		int fn = fy ? first_y[fi - 14] : first_mo[fi];
+		for (int si = 0; si < NSECOND; si++) {
+			struct mix_s *m = &mixes[fi][si];
+			int su = si < 10 ? S_D : si < 16 ? S_W : si < 24 ? S_B : S_H;
+			int k = su == S_D ? second_d[si] : su == S_W ? second_w[si - 10] : su == S_B ? second_b[si - 16] : second_h[si - 24];
+			m->months = fn * (fy ? 12 : 1);
+			m->sunit = su;
+			m->k = k;
+			snprintf(m->tf, sizeof(m->tf), "%+d%s", fn, fy ? "y" : "mo");
+			snprintf(m->ts, sizeof(m->ts), "%+d%s", k, sunit_name[su]);
+			two_durs(&m->fs, m->tf, m->ts);
+			two_durs(&m->sf, m->ts, m->tf);
+		}
+	}
+}
+
+/* the model's day/week/business-day step; -1 outside the range */
+static int
+model_step(int rd, int su, int k)
+{
+	long t;
+	switch (su) {
+	case S_D: t = (long)rd + k; break;
+	case S_W: t = (long)rd + 7L * k; break;
+	case S_B: return bz_target(rd, k);
+	default: t = (long)rd + 1; break;	/* 23:00 + 9 h */
+	}
+	return (t < 0 || t >= RC_NDAYS) ? -1 : (int)t;
+}
+
+#define MEMO_PAD	2048
+#define MEMO_SZ		(366 + 2 * MEMO_PAD)
+static struct dt_dt_s memo_v[NCAL][2][MEMO_SZ];
+static uint8_t memo_ok[NCAL][2][MEMO_SZ];
+static int memo_base;
+
+static void
+memo_reset(int rd0)
+{
+	memo_base = rd0 - MEMO_PAD;
+	memset(memo_ok, 0, sizeof(memo_ok));
+}
+
+/* V: the day held in calendar C; VT: the same with T23:00:00 (or unknown) */
+static int
+do_mixed(const struct rc_day *p, int c, struct dt_dt_s v, struct dt_dt_s vt, int fi, int si, int order, int replay)
+{
+	const struct mix_s *m = &mixes[fi][si];
+	int fy = fi >= 14;
+	int bc = cal_base[c];
+	struct tgt_s tg;
+	const struct rc_day *t;
+	struct dt_dt_s r;
+	int trd, clamp, hourp = m->sunit == S_H;
+	int ok[NOBS], allok;
+	char got[NOBS][64];
+	long mi;
+
+	if (order == 0) {
+		/* month/year step, crop, then the day step */
+		tg = model_target(c, p, m->months);
+		if (!tg.ok) {
+			++*c_skip_range;
+			return 0;
+		}
+		clamp = tg.clamp;
+		trd = model_step(tg.rd, m->sunit, m->k);
+	} else {
+		int q = model_step(p->rd, m->sunit, m->k);
+		if (q < 0) {
+			++*c_skip_range;
+			return 0;
+		}
+		if (bc == C_BIZDA && !rc_tab[q].isbd) {
+			++*c_skip_mixwe;
+			return 0;
+		}
+		tg = model_target(c, rc_get(q), m->months);
+		if (!tg.ok) {
+			++*c_skip_range;
+			return 0;
+		}
+		clamp = tg.clamp;
+		trd = tg.rd;
+	}
+	if (trd < 0) {
+		++*c_skip_range;
+		return 0;
+	}
+	t = rc_get(trd);
+	if (bc == C_BIZDA && !t->isbd) {
+		/* no bizda name for the result */
+		++*c_skip_mixwe;
+		return 0;
+	}
+	r = apply_durs(hourp ? vt : v, order == 0 ? &m->fs : &m->sf);
+	++*c_eval;
+	++*c_trans;
+	++*c_mixed;
+	if (clamp) {
+		++*c_nontriv;
+	}
+	mi = (long)trd - memo_base;
+	if (!replay && mi >= 0 && mi < MEMO_SZ && memo_ok[c][hourp][mi] && !memcmp(&memo_v[c][hourp][mi], &r, sizeof(r))) {
+		++*c_mixed_memo;
+		return 0;
+	}
+	if (hourp) {
+		char exp[64];
+		memset(got, 0, sizeof(got));
+		dt_strfdt(got[O_F], 64, "%FT%T", r);
+		++*c_eval;
+		snprintf(exp, sizeof(exp), "%04d-%02d-%02dT08:00:00", t->y, t->m, t->d);
+		ok[O_DAISY] = ok[O_DFLT] = 1;
+		ok[O_F] = !strcmp(got[O_F], exp);
+		ex_outcome(ex_hash(got[O_F], strlen(got[O_F])));
+	} else {
+		observe(c, r, t, ok, got);
+	}
+	allok = ok[O_DAISY] && ok[O_DFLT] && ok[O_F];
+	if (allok && mi >= 0 && mi < MEMO_SZ && !memo_ok[c][hourp][mi]) {
+		memo_v[c][hourp][mi] = r;
+		memo_ok[c][hourp][mi] = 1;
+	}
+	if (!allok) {
+		char key[160];
+		snprintf(key, sizeof(key), "mixed cal=%s order=%s first=%s second=%s sign=%c clamp=%d", cal_name[c],
+			 order == 0 ? "month-step-first" : "day-step-first", fy ? "y" : "mo", sunit_name[m->sunit], m->k > 0 ? '+' : '-', clamp);
+		if (!ex_viol_known(key, (double)trd)) {
+			char text[64], cas[64], cmd[256], exp[64], ifm[48] = "";
+			cal_text(c, p, text, sizeof(text));
+			if (hourp) {
+				strcat(text, "T23:00:00");
+			}
+			snprintf(cas, sizeof(cas), "mix %d %d %d %d %d", c, fi, si, order, p->rd);
+			if (cal_ifmt[c]) {
+				snprintf(ifm, sizeof(ifm), " -i '%s%s'", cal_ifmt[c], hourp ? "T%T" : "");
+			}
+			exp_dflt(c, t, exp, sizeof(exp));
+			snprintf(cmd, sizeof(cmd), "dadd%s%s %s -- %s %s", ifm, hourp ? " -f %FT%T" : "", text,
+				 order == 0 ? m->tf : m->ts, order == 0 ? m->ts : m->tf);
+			ex_viol(key, (double)trd, cas, cmd, "%04d-%02d-%02d given as '%s' (%s) %s then %s: default output '%s', %%F%s '%s', day count %s; "
+				"applying the steps one after the other to the date each denotes gives %04d-%02d-%02d%s = '%s'%s",
+				p->y, p->m, p->d, text, cal_name[c], order == 0 ? m->tf : m->ts, order == 0 ? m->ts : m->tf,
+				got[O_DFLT], hourp ? "T%T" : "", got[O_F], got[O_DAISY], t->y, t->m, t->d, hourp ? "T08:00:00" : "", exp,
+				clamp ? " (the month/year step crops)" : "");
+		}
+	}
+	if (replay) {
+		printf("  %04d-%02d-%02d (%s) %s %s -> model %04d-%02d-%02d%s; observed dflt '%s' %%F '%s' daisy '%s' %s\n",
+		       p->y, p->m, p->d, cal_name[c], order == 0 ? m->tf : m->ts, order == 0 ? m->ts : m->tf, t->y, t->m, t->d,
+		       clamp ? " (cropped)" : "", got[O_DFLT], got[O_F], got[O_DAISY], allok ? "(agrees)" : "DISAGREES");
+	}
+	return !allok;
+}
+
+/* does calendar C take the first step FI / the second step SI of the mixed sequences? */
+static int
+mixed_ok(int c, int fi, int si)
+{
+	int su = si < 10 ? S_D : si < 16 ? S_W : si < 24 ? S_B : S_H;
+	if (c == C_EPOCH || c == C_YMCW0 || c == C_YWD0) {
+		/* epoch: two readings for the month step; the Sunday-00 spellings are judged on the single steps (here and in C03/C07) */
+		return 0;
+	}
+	if (fi < 14 && !cal_has_unit(c, U_MO)) {
+		return 0;
+	}
+	if (su == S_H) {
+		/* date-times through the format-less parser: ymd ymcw ywd bizda */
+		return c == C_YMD || c == C_YMCW || c == C_YWD || c == C_BIZDA;
+	}
+	return 1;
 }
 
 static int
@@ -663,14 +919,41 @@ main(int argc, char *argv[])
 	c_clamped = ex_ctr("single steps whose day/count/week is cropped by the model");
 	c_comp = ex_ctr("compositions compared");
 	c_comp_bits = ex_ctr("compositions whose two results are the same 16 bytes (text not compared)");
+	c_epoch_noop = ex_ctr("month/quarter/year steps on an epoch value that leave it unchanged (accepted: no notion of months)");
+	c_mixed = ex_ctr("mixed two-step sequences compared");
+	c_mixed_memo = ex_ctr("mixed sequences whose result is a value already observed to agree for the same (calendar, target)");
+	c_skip_mixwe = ex_ctr("skipped:mixed sequence in bizda whose intermediate or final day is a weekend day (no bizda name)");
 	mk_tables();
 	mk_pairs();
+	mk_mixes();
+	bz_init();
 
 	if (ex.cas) {
 		int c, u, n, rd, k, a, b;
 		struct dt_dt_s v;
 		if (!strncmp(ex.cas, "bind ", 5)) {
 			return replay_binding(ex.cas + 5);
+		}
+		if (!strncmp(ex.cas, "spell ", 6)) {
+			check_spellings(spellings, NSPELL);
+			return ex_replay_result(ex.nviol != 0, "documented duration spellings");
+		}
+		{
+			int fi, si, order;
+			if (sscanf(ex.cas, "mix %d %d %d %d %d", &c, &fi, &si, &order, &rd) == 5 && c >= 0 && c < NCAL && fi >= 0 && fi < NFIRST &&
+			    si >= 0 && si < NSECOND && (order == 0 || order == 1) && rd >= 0 && rd < RC_NDAYS) {
+				struct dt_dt_s vt = {DT_UNK};
+				char text[64];
+				if (cal_value(c, rc_get(rd), &v) <= 0) {
+					return ex_replay_result(1, "day not accepted in calendar %s", cal_name[c]);
+				}
+				cal_text(c, rc_get(rd), text, sizeof(text));
+				strcat(text, "T23:00:00");
+				vt = dt_strpdt(text, NULL, NULL);
+				memo_reset(rd);
+				return ex_replay_result(do_mixed(rc_get(rd), c, v, vt, fi, si, order, 1) != 0, "mixed cal=%s %s %s order=%d rd=%d",
+							cal_name[c], mixes[fi][si].tf, mixes[fi][si].ts, order, rd);
+			}
 		}
 		if (sscanf(ex.cas, "dseq %d", &k) == 1 && k >= 0 && k < NDSEQ) {
 			return ex_replay_result(do_dseq(k, 1) != 0, "dseq binding %d", k);
@@ -704,23 +987,36 @@ main(int argc, char *argv[])
 		"observed as default output (parsed back: a valid date equal to the model's), as %%F and as dt_dconv(DT_DAISY). composition: DATE +a +b (one parser state, "
 		"applied one after the other, printed once) must print the same as DATE +(a+b), for months+months, years+years, months+years, years+months; equal 16-byte "
 		"results are not printed (counted); results or intermediates outside 1601..4095 are outside the property (skipped, counted). "
-		"non-trivial = the model crops, or the year changes");
+		"further input spellings: ymcw-w0 = ymcw with Sunday written 00 (documented %%w), ywd-w0 = ISO week date read with -i %%G-W%%V-%%w (Sundays only); epoch = the day's "
+		"midnight as @SECONDS (= -i %%s SECONDS): the property lists the calendars that have months/years and an epoch is not among them, so a month/quarter/year step on it "
+		"may either follow the ymd rule (it prints as a ymd date-time) or leave it unchanged (counted), anything else is a violation. mixed sequences (dadd --help: durations "
+		"are applied one after the other, not commutative): a month/year step and a day/week/business-day step in one invocation, both orders, are judged by 'crop, then step': "
+		"each step starts from the valid date the previous one denotes; also a +9h step on a T23:00:00 value after a month/year step (what an output zone does); one class per "
+		"(calendar, order, units, sign of the day step, cropped) with all three observations in the detail; in bizda sequences through a weekend day are skipped. the documented "
+		"spellings nY nMO (upper/lower case, sign omitted) must parse like the canonical text. non-trivial = the model crops, or the year changes");
 	ex_meta("bound", "%s tier: single steps: %s x ( +-[0,40] + {48,60,100,120,400,1200,4800} months; +-[0,8] + {40,100,400} quarters; +-[0,12] + {28,100,400} years ); "
-		"composition: %s x all (a,b) in [-%d,%d]^2 x 4 kinds; binding runs: %d dadd + %d dseq",
+		"composition: %s x all (a,b) in [-%d,%d]^2 x 4 kinds; mixed sequences: %s x first step +-{1,2,3,6,11,12,13}mo, +-{1,2,3,4}y x second step +-{1,2,7,28,31}d, "
+		"+-{1,4,52}w, +-{1,2,5,21}b in both orders, and +9h after the month/year step on T23:00:00 values (ymd ymcw ywd bizda); binding runs: %d dadd + %d dseq",
 		ex.thorough ? "thorough" : "quick", ex.thorough ? "all 911,280 days" : "the 146,097 days 1601..2000 and the last 16 years 4080..4095",
 		ex.thorough ? "the 146,097 days 1601..2000" : "the days of the windows 1601-08 1897-1904 1997-2004 4088-95", CR, CR,
+		ex.thorough ? "all 911,280 days" : "the days of the four windows and of 4080..4095",
 		ex.thorough ? NBIND : NBIND_QUICK, NDSEQ);
 	ex_meta("ord", "ordered coordinate of a failure class (lo/hi in findings) = day ordinal rd of the TARGET state (0 = 1601-01-01; day count - 1); binding classes: rd of the input line");
 	ex_meta("binding", "dadd binary of the same build with all days on stdin per (calendar, duration arguments[, -f]) entry, byte-compared with the library-level observation; "
 		"dseq START 1mo END over 40 years from days 28..31, every line compared with the model's START + k months");
 
+	if (ex.worker == 0) {
+		check_spellings(spellings, NSPELL);
+	}
 	for (int y = RC_MIN_YEAR; y <= RC_MAX_YEAR && !ex_expired_now(); y++) {
 		int single = ex.thorough || y <= 2000 || y >= 4080;
 		int comp = ex.thorough ? y <= 2000 : in_w8(y);
+		int mixed = ex.thorough || in_w8(y) || y >= 4080;
 
-		if (!ex_mine((uint64_t)(y - RC_MIN_YEAR)) || !(single || comp)) {
+		if (!ex_mine((uint64_t)(y - RC_MIN_YEAR)) || !(single || comp || mixed)) {
 			continue;
 		}
+		memo_reset(rc_yearstart[y]);
 		for (int rd = rc_yearstart[y]; rd < rc_yearstart[y + 1] && !ex_expired_now(); rd++) {
 			const struct rc_day *p = rc_get(rd);
 			++*c_states;
@@ -751,6 +1047,40 @@ main(int argc, char *argv[])
 						++*c_traces;
 					}
 				}
+				if (mixed && c != C_EPOCH && c != C_YMCW0 && c != C_YWD0) {
+					struct dt_dt_s vt = {DT_UNK};
+					int have_t = 0;
+					if (c == C_YMD || c == C_YMCW || c == C_YWD || c == C_BIZDA) {
+						char text[64];
+						cal_text(c, p, text, sizeof(text));
+						strcat(text, "T23:00:00");
+						vt = dt_strpdt(text, NULL, NULL);
+						++*c_eval;
+						have_t = !dt_unk_p(vt) && vt.d.typ == cal_typ[c];
+						if (!have_t) {
+							char key[64], cas[64];
+							snprintf(key, sizeof(key), "parse cal=%s with T23:00:00", cal_name[c]);
+							snprintf(cas, sizeof(cas), "%d 0 0 %d", c, rd);
+							ex_viol(key, rd, cas, NULL, "'%s' is not accepted by the parser (or yields another type)", text);
+						}
+					}
+					for (int fi = 0; fi < NFIRST; fi++) {
+						for (int si = 0; si < NSECOND; si++) {
+							if (!mixed_ok(c, fi, si)) {
+								continue;
+							}
+							if (mixes[fi][si].sunit == S_H) {
+								if (have_t) {
+									do_mixed(p, c, v, vt, fi, si, 0, 0);
+								}
+								continue;
+							}
+							do_mixed(p, c, v, vt, fi, si, 0, 0);
+							do_mixed(p, c, v, vt, fi, si, 1, 0);
+						}
+					}
+					++*c_traces;
+				}
 				if (comp) {
 					for (int k = 0; k < NKIND; k++) {
 						if (!kind_ok(c, k)) {
@@ -771,7 +1101,7 @@ main(int argc, char *argv[])
 			if (ex_want_sample()) {
 				ex_sample("state %04d-%02d-%02d (ISO %04d-W%02d-%d, yday %d, %d%s %s of the month, bd %d%s): %s%s",
 					  p->y, p->m, p->d, p->isoy, p->isow, p->wd, p->yday, p->mcnt, vf_ordsuf(p->mcnt), rc_abbr_wday[p->wd], p->bd,
-					  p->isbd ? "" : " weekend", single ? "all single month/quarter/year steps in 5 calendars" : "",
+					  p->isbd ? "" : " weekend", single ? "all single month/quarter/year steps in 5 calendars + spellings" : "",
 					  comp ? "; all compositions (a,b) in [-14,14]^2 x 4 kinds" : "");
 			}
 		}
